@@ -28,6 +28,7 @@ WeakKw == {"union", "raw", "safe", "auto", "default"}
 Keywords == StrictKw \cup ReservedKw \cup WeakKw
 
 Space == IF Slice = "payload" THEN {[kind |-> "payload", at |-> p, cls |-> k] : p \in Sources, k \in Classes}
+                                      \cup {[kind |-> "payload", at |-> "facet", cls |-> k] : k \in NumClasses}
          ELSE {[kind |-> "keyword", at |-> p, kw |-> k] : p \in Positions, k \in Keywords}
 
 \* the text placed at position p in case x (a vocabulary id), or the harmless default
@@ -64,7 +65,8 @@ Wsdl(x) == [name |-> "f.wsdl", kind |-> "wsdl", tns |-> TextAt(x, "uri", "Uplain
 IsWsdl(x) == x.at \in {"op_name", "part_name", "service_name", "address", "action"}
 CaseOf(x) == [prop |-> "C14", drv |-> "lex", start |-> IF IsWsdl(x) THEN "f.wsdl" ELSE "f.xsd",
               files |-> IF IsWsdl(x) THEN <<Wsdl(x)>> ELSE <<Xsd(x)>>, shape |-> x,
-              probes |-> IF x.kind = "payload" THEN << [site |-> x.at, cls |-> x.cls, src |-> SrcOf(x.at), text |-> PayId(x.cls), marker |-> "ZVMK"] >> ELSE <<>>]
+              probes |-> IF x.kind = "payload" THEN << [site |-> x.at, cls |-> x.cls, src |-> SrcOf(x.at), text |-> PayId(x.cls),
+                                                        marker |-> IF x.cls \in NumClasses THEN "31337" ELSE "ZVMK"] >> ELSE <<>>]
 
 MCInit == c \in Space
 MCSpec == MCInit /\ [][UNCHANGED c]_vars
@@ -75,6 +77,7 @@ Emit == PrintT(<<"CASE", ToJson(CaseOf(c))>>)
 PayText == [pay_plain |-> "ZVMKplain", pay_quote |-> "ZVMK\"q", pay_backslash |-> "ZVMK\\b", pay_braces |-> "ZVMK{x}{{y",
             pay_lf |-> "ZVMK\nsecond", pay_cr |-> "ZVMK\rafter", pay_comment_end |-> "ZVMK*/ x", pay_comment_start |-> "ZVMK/* x",
             pay_inject |-> "ZVMK\"; fn marker() {} //", pay_nonascii |-> "ZVMKäß€",
+            pay_num_plus |-> "+31337", pay_num_zeros |-> "0031337", pay_num_space |-> "  31337 ", pay_num_neg |-> "-31337",
             num1 |-> "1", addr_plain |-> "http://127.0.0.1:9/svc", act_plain |-> "http://zv.test/c14/act"]
 Vocab == [names |-> [pay_plain |-> [xml |-> PayText.pay_plain], pay_quote |-> [xml |-> PayText.pay_quote], pay_backslash |-> [xml |-> PayText.pay_backslash],
                      pay_braces |-> [xml |-> PayText.pay_braces], pay_lf |-> [xml |-> PayText.pay_lf], pay_cr |-> [xml |-> PayText.pay_cr],
